@@ -123,6 +123,7 @@ let parse_acc ws =
 
 let why_str w = match int_of_z w with
   | 0 -> "mempool_full" | 1 -> "bad-txns-inputs-missingorspent" | 2 -> "min_relay_fee_not_met" | 3 -> "TRUC-violation"
+  | 4 -> "insufficient_fee" | 5 -> "bad-txns-spends-conflicting-tx"
   | n -> "why" ^ string_of_int n
 let state_str = function
   | Model.PS_valid -> "valid"
